@@ -601,7 +601,10 @@ class SInt:
             return self
         if hi is not None and hi <= 0:
             return -self
-        return ite(self >= 0, self, -self)
+        # fork (usually already decided by the path condition): both sides stay linear
+        if self >= 0:
+            return self
+        return -self
 
     def __truediv__(self, o):
         return SFloat.of(self) / o
@@ -663,8 +666,15 @@ class SInt:
             a, b = self.z(), o.z()
             q = a / b
             fq = z3.If(b > 0, q, z3.If(a == q * b, q, q - 1))
-            qv = SInt.var(fq)
-            return qv, self - qv * o
+            (al, ah), (bl, bh) = self.bounds(), o.bounds()
+            if al is None or bl is None:
+                qv = SInt.var(fq)
+                return qv, self - qv * o
+            M = max(abs(al), abs(ah))
+            B = max(abs(bl), abs(bh))
+            qv = SInt.var(fq, -M - 1, M + 1)
+            rv = SInt.var(a - fq * b, -B, B)          # python remainder: sign of the divisor, |r| < |b|
+            return qv, rv
         if isinstance(o, (float, SFloat)):
             return divmod(SFloat.of(self), o)
         return NotImplemented
@@ -1236,6 +1246,10 @@ class SFloat:
 
     def __divmod__(self, o):
         o = SFloat.of(o)
+        if self.is_concrete() and self.n == 0:
+            if o != 0:
+                return SFloat(0, 1), SFloat(0, 1)
+            raise ZeroDivisionError("float divmod()")
         if not (isinstance(o.n, int) and o.exact() and o.n > 0):
             raise Unmodelled("float divmod by non-constant/non-positive")
         a, b = o.n, o.d                      # divisor k = a/b > 0
